@@ -12,7 +12,7 @@ Local Open Scope list_scope.
 Definition contrib (name : string) (w : wpred) : list toks :=
   if wp_is_type w then
     match wp_bounded w with
-    | BPath false false 1 first => if String.eqb first name then trait_bounds (wp_bounds w) else []
+    | BPath false false 1 first => if String.eqb first name then pred_bounds w else []
     | _ => []
     end
   else [].
@@ -455,7 +455,7 @@ Qed.
 Definition c04_cex_input2 : input :=
   InFn (mkHead [] [] false false)
        (mkSig false false false None "foo"
-              (mkGen false pempty (Some (mkP [mkWP true (BPath false false 1 "Self") [[TId "Sized"]] [TId "Self"; pc ":"; TId "Sized"]] false)))
+              (mkGen false pempty (Some (mkP [mkWP true (BPath false false 1 "Self") [[TId "Sized"]] [TId "Self"; pc ":"; TId "Sized"] []] false)))
               pempty None None)
        [TG Brace []].
 
